@@ -1100,6 +1100,39 @@ def describe(c, u):
     return f"{KN[o['kind']]} id={o.get('id')} of layer {o.get('layer')} (u{u})"
 
 
+def pinned_cases(want=4, attempts=4000):
+    """situations which the random stream of a run may or may not contain, generated by rejection from a stream of
+    their own (so that they are in every run): a TABLE-KEY whose TABLE-SNREF / TABLE-ROW-SNREF is owned by an ancestor
+    of a retargeting target which sees ANOTHER table under that name (the row has to be looked up again)"""
+    import random
+    rs = random.Random(20261001)
+    out = []
+    for _ in range(attempts):
+        if len(out) >= want:
+            break
+        c = gen_case(rs, fault=None)
+        targets = [L["i"] for L in c.layers if L["type"] != 4 and L["parents"]][:2]
+        views = None
+        for r in c.refs:
+            if r["slot"] != "tk_table" or r["mode"] != "sn" or "row_snref" not in r:
+                continue
+            A = r["layer"]
+            for V in targets:
+                if V == A or A not in ancestors(c, V):
+                    continue
+                views = views or spec_views(c)
+                if any(v == "conflict" for cat in views for v in views[cat]):
+                    continue
+                a, b = spec_snref(c, views, A, r["cats"], r["name"], r["expected"]), spec_snref(c, views, V, r["cats"], r["name"], r["expected"])
+                if a[0] == "ok" and b[0] == "ok" and a[1] != b[1]:
+                    out.append(c)
+                    break
+            else:
+                continue
+            break
+    return out
+
+
 def main(argv=None):
     import warnings
     warnings.simplefilter("ignore")
@@ -1112,6 +1145,9 @@ def main(argv=None):
         cases.append(from_json(json.load(open(ck.replay))["replay"]["case"]))
     else:
         cases += corpus()
+        pinned = pinned_cases()
+        ck.coverage["pinned_row_snref_cases"] = len(pinned)
+        cases += pinned
         n = 150 if quick else 2500
         for k in range(n):
             cases.append(gen_leak_case(rng) if k % 8 == 5 else gen_case(rng, fault=(k % 4 == 3), big=(k % 10 == 9)))
